@@ -28,6 +28,7 @@ import time
 PROPERTY = 'C13'
 PLACES = ('D', 'A1', 'A2')
 CAPN = 2
+HANG_S = 60
 
 
 # ------------------------------------------------------------------ things registered on the manager (module level)
@@ -66,8 +67,8 @@ def child_uses_proxy(p, kind):
 
 
 # ------------------------------------------------------------------ model
-State = collections.namedtuple('State', 'D A1 A2 T S spawned exited')
-INIT = State(1, 0, 0, 0, 0, False, False)
+State = collections.namedtuple('State', 'D A1 A2 T S spawned exited cgone')
+INIT = State(1, 0, 0, 0, 0, False, False, False)
 
 
 def total(s):
@@ -89,14 +90,16 @@ def enabled(s, kind='list'):
             ops.append(('unpickle', P))
         if n > 0:
             ops.append(('drop', P))
-    if s.D > 0 and s.S < CAPN:
+    if s.D > 0 and s.S < CAPN and not s.cgone:
         ops.append(('store',))
     if s.S > 0 and s.D < CAPN:
         ops.append(('take',))
     if s.S > 0:
         ops.append(('clear',))
+        ops.append(('dropc',))     # the last proxy of the container goes while it still holds proxies of X (nested destruction)
     if s.D > 0 and not s.spawned:
         ops.append(('spawn',))
+        ops.append(('spawnmove',))  # the driver gives its proxy away to the child: nothing but the child's argument refers to X
     if not s.exited:
         ops.append(('exit',))
     return ops
@@ -123,6 +126,12 @@ def step(s, op):
         d['S'] = 0
     elif k == 'spawn':
         d['spawned'] = True
+    elif k == 'spawnmove':
+        d['spawned'] = True
+        d['D'] -= 1
+    elif k == 'dropc':
+        d['S'] = 0
+        d['cgone'] = True
     elif k == 'exit':
         d['A2'] = 0
         d['exited'] = True
@@ -233,6 +242,19 @@ class Group:
                     if p.exitcode != 0:
                         return ('spawned-child-failed', f'child exit code {p.exitcode} in {history[:i + 1]}')
                     del p
+                elif k == 'spawnmove':
+                    from mpservice.multiprocessing import Process
+                    px = D.handles.pop(names['D'].pop())
+                    p = Process(target=child_uses_proxy, args=(px, kind))
+                    del px
+                    p.start()      # (multiprocessing's start() deletes the arguments from the Process object)
+                    p.join(60)
+                    if p.exitcode != 0:
+                        return ('spawned-child-failed', f'child exit code {p.exitcode} in {history[:i + 1]} (the driver '
+                                'gave its proxy away to the child)')
+                    del p
+                elif k == 'dropc':
+                    D.do('drop', 'c')
                 elif k == 'exit':
                     self.agents['A2'].close()
                     names['A2'] = []
@@ -247,8 +269,9 @@ class Group:
                         self.agents[P].do('drop', nm)
             transit_left = len(transit)
             transit.clear()
-            must(D.do('call', 'c', '__delitem__', (slice(None),)))
-            D.do('drop', 'c')
+            if not s.cgone:
+                must(D.do('call', 'c', '__delitem__', (slice(None),)))
+                D.do('drop', 'c')
             if kind == 'managed':
                 holder = None
             self.collect_all()
@@ -310,6 +333,7 @@ class Group:
 
 
 def group_worker(conn):
+    os.setsid()      # own process group: the master can remove this worker with its manager and agents if a history hangs
     g = Group()
     try:
         conn.send(('ready', None))
@@ -319,7 +343,8 @@ def group_worker(conn):
                 break
             kind, histories = msg
             out = []
-            for h in histories:
+            for n, h in enumerate(histories):
+                conn.send(('at', n))
                 try:
                     out.append(g.run_history(kind, h))
                 except Exception as e:
@@ -354,6 +379,7 @@ def run(tier, seed, pool, t0):
             raise RuntimeError('manager group did not start')
         a.recv()
     stats = []
+    hang = False
     try:
         for kind in ('list', 'block', 'managed'):
             cs = ConfigStats('histories', dict(object=kind, depth=depth if kind == 'list' else depth - 1))
@@ -372,11 +398,30 @@ def run(tier, seed, pool, t0):
                 for (p, a), ch in zip(workers, chunks):
                     a.send((kind, [h for _, _, h in ch]))
                 results = []
+                hung = False
                 for (p, a), ch in zip(workers, chunks):
-                    if not a.poll(1800):
-                        raise RuntimeError('manager group timed out')
-                    tag, out, rpcs = a.recv()
-                    results.extend(zip(ch, out))
+                    at = 0
+                    while True:
+                        if not a.poll(HANG_S):
+                            # no progress for HANG_S seconds inside one history (they take well under a second): a hang
+                            h = ch[at][2] if ch else []
+                            cs.violations.setdefault('history-hangs:' + (h[-1][0] if h else '?'), dict(
+                                count=1, choices=h, no_replay=True,
+                                detail=f'{kind}: the history {h} did not finish within {HANG_S} s (a client or the server blocks)'))
+                            hung = True
+                            break
+                        msg = a.recv()
+                        if msg[0] == 'at':
+                            at = msg[1]
+                            continue
+                        tag, out, rpcs = msg
+                        results.extend(zip(ch, out))
+                        break
+                    if hung:
+                        break
+                if hung:
+                    hang = True
+                    break       # the group that hangs is lost; report what was found
                 nxt = []
                 for (s, op, h), v in results:
                     transitions += 1
@@ -406,7 +451,16 @@ def run(tier, seed, pool, t0):
             cs.samples = [dict(history=seen[s], state=s._asdict()) for s in list(seen)[-2:]]
             cs.wall = time.time() - cs.t0
             stats.append(cs)
+            if hang:
+                break
     finally:
+        if hang:
+            import signal
+            for p, a in workers:
+                try:
+                    os.killpg(p.pid, signal.SIGKILL)
+                except OSError:
+                    pass
         for p, a in workers:
             try:
                 a.send(None)
